@@ -73,7 +73,7 @@ class Lib:
             return V.Builtin(o.name + "." + name)
         if isinstance(o, V.Builtin) and o.bound is None:
             return V.Builtin(o.name + "." + name)
-        if isinstance(o, (PyList, PySet, PyDict, SymSet, SymSeq, SymMap, str, tuple)) or (
+        if isinstance(o, (PyList, PySet, PyDict, SymSet, SymSeq, SymMap, str, tuple, V.GroupDict, V.GroupSlot)) or (
                 isinstance(o, z3.ExprRef) and (z3.is_string(o) or z3.is_int(o))) or isinstance(o, (int, V.FractionV, V.GeneratorV)):
             return V.Builtin("method." + name, bound=o)
         if isinstance(o, OptV):
@@ -400,6 +400,8 @@ class Lib:
 
     # ------------------------------------------------------------------ subscripts
     def getitem(self, ctx, o, k):
+        if isinstance(o, V.GroupDict):
+            return V.GroupSlot(o, k)
         if isinstance(o, PyList) or isinstance(o, tuple):
             items = o.items if isinstance(o, PyList) else list(o)
             if isinstance(k, bool):
@@ -877,6 +879,11 @@ class Lib:
             raise EngineLimit("combinations_with_replacement over %r" % (s,))
         return V.Combos(s, k)
 
+    def bi_collections_defaultdict(self, ctx, factory=None):
+        if isinstance(factory, V.Builtin) and factory.name == "list":
+            return V.GroupDict()
+        raise EngineLimit("defaultdict with a factory other than list")
+
     def bi_functools_partial(self, ctx, fn, *args, **kwargs):
         return V.Partial(fn, args, kwargs)
 
@@ -908,6 +915,10 @@ class Lib:
 
     @staticmethod
     def kind_of(o):
+        if isinstance(o, V.GroupSlot):
+            return "groupslot"
+        if isinstance(o, V.GroupDict):
+            return "groupdict"
         if isinstance(o, PyList):
             return "list"
         if isinstance(o, (SymSet, PySet)):
@@ -931,6 +942,25 @@ class Lib:
 
         if not getattr(o, "fresh", True):
             ctx.oblige("%s/frame#aliased-mutation" % short(ctx.func), False, kind="frame")
+
+    def m_groupslot_append(self, ctx, o, x):
+        d = o.d
+        if not ctx.bindings or not isinstance(ctx.bindings[-1].source, SymSeq):
+            raise EngineLimit("defaultdict(list) filled outside the grouping idiom `for t in seq: d[key(t)].append(t)`")
+        b = ctx.bindings[-1]
+        if d.src is not None:
+            raise EngineLimit("defaultdict(list) filled by more than one loop / append")
+        if not (isinstance(x, Obj) and isinstance(b.value, Obj) and x.ref.eq(b.value.ref)):
+            raise EngineLimit("grouping idiom must append the loop element itself")
+        kt = o.key
+        if isinstance(kt, str):
+            kt = z3.StringVal(kt)
+        elif isinstance(kt, int):
+            kt = z3.IntVal(kt)
+        d.src, d.key, d.const = b.source, kt, b.consts[0]
+
+    def m_groupdict_values(self, ctx, o):
+        return V.GroupValues(o)
 
     def m_list_append(self, ctx, o, x):
         self._mutating(ctx, o)
